@@ -30,7 +30,7 @@ def small_stream(rnd, maxlen=60, noise=0.0):
         t = G.spell(rnd, v, variety=False)
         if rnd.random() < 0.2:
             # strings written with escapes (a fault may fall on any byte of one)
-            t = rnd.choice([b'"\\u0041"', b'"a\\u00e9\\n"', b'["\\ud83d\\ude03"]', b'{"k\\u0031": "\\t\\\\"}', b'"\\u005c\\u0022"'])
+            t = rnd.choice([b'"\\u0041"', b'"a\\u00e9\\n"', b'["\\u00e9\\u4e2d"]', b'{"k\\u0031": "\\t\\\\"}', b'"\\u005c\\u0022"'])
         piece = t + rnd.choice([b" ", b"\n", b"\n", b"\t"])
         if rnd.random() < noise:
             piece += rnd.choice([b"} ", b": ", b"xx\n", b"\xff "])
